@@ -82,6 +82,106 @@ def check_list(run, E):
             yield ck
 
 
+def check_movie(run, E):
+    """calc_rdm_movie.  List branch: movie i is calc_rdm_movie(dataset[i]) with EVERY option forwarded (noise / noise[i]).
+    Single dataset: the data are (optionally binned, then) split by the time descriptor; frame t is calc_rdm /
+    calc_rdm_unbalanced of part t turned into a flat dataset (time_as_observations) with every estimator option forwarded; the
+    frames are stacked by concat, labelled with the time values and the method name"""
+    stores = []
+
+    def dd_set(E, d, key, val):
+        stores.append((d, key, val))
+    E.methods[('DescDict', '__setitem__')] = dd_set
+    E.schemas.setdefault('TemporalDataset', {'time_descriptors': 'obj:DescDict'})
+    E.func_ret['rsatoolbox.rdm.calc_unbalanced.calc_rdm_unbalanced'] = 'RDMs'
+    opts = ('method', 'descriptor', 'noise', 'cv_descriptor', 'prior_lambda', 'prior_weight')
+
+    def common_kw(E, noise, bins, unb):
+        return dict(method=E.sym_val('method', tag='scalar'), descriptor=E.sym_val('descriptor', tag='scalar'), noise=noise,
+                    cv_descriptor=E.sym_val('cv_descriptor'), prior_lambda=E.sym_val('prior_lambda'),
+                    prior_weight=E.sym_val('prior_weight'), time_descriptor=E.sym_val('time_descriptor', tag='scalar'),
+                    bins=bins, unbalanced=unb)
+    for noise_case in ('none', 'matrix', 'list'):
+        ck = FuncCheck(E, run, 'C01', CALC + 'calc_rdm_movie', f'list,noise={noise_case}')
+
+        def mk(E, noise_case=noise_case):
+            ds = E.sym_list('datasets', 'TemporalDataset')
+            if noise_case == 'none':
+                noise = None
+            elif noise_case == 'matrix':
+                noise = E.sym_val('noise', tag='ndarray')
+                noise.shape = (z3.Int('p'), z3.Int('p'))
+            else:
+                noise = E.sym_list('noises')
+            kw = common_kw(E, noise, E.sym_val('bins'), E.sym_val('unbalanced'))
+            return [ds], kw, ([noise.zlen() == ds.zlen()] if noise_case == 'list' else [])
+
+        def post(ck, E, args, kw, p, noise_case=noise_case):
+            ds = args[0]
+            a = peel(p.value, 'rsatoolbox.rdm.rdms.concat')
+            ck.ensure('post/movies-stacked-by-concat', z3.BoolVal(a is not None), structure=True)
+            if a is None:
+                return
+            lst = a[0][0] if isinstance(a[0], tuple) and len(a[0]) == 1 else a[0]
+            ok = isinstance(lst, SeqV)
+            ck.ensure('post/one-movie-per-dataset', z3.BoolVal(ok) if not ok else lst.zlen() == ds.zlen())
+            if not ok:
+                return
+            i = z3.Int(fresh_name('d'))
+            E.pc.append(z3.And(i >= 0, i < ds.zlen()))
+            p.pc = list(E.pc)
+            noise_i = None if noise_case == 'none' else (kw['noise'] if noise_case == 'matrix' else E.seq_elem(kw['noise'], i))
+            fv = E.find_function(CALC + 'calc_rdm_movie')
+            bound = E.bind_args(fv.node, [E.seq_elem(ds, i)], dict(kw, noise=noise_i), module=fv.module)
+            want = E.app(CALC + 'calc_rdm_movie', [bound[q] for q in bound], 'obj', cls='RDMs')
+            ck.ensure_eq('post/movie-i-is-the-single-dataset-movie-with-every-option-forwarded', E.seq_elem(lst, i), want)
+        ck.execute(mk, post=post, allow_raise=lambda *a: None)
+        yield ck
+    for bins_case in ('none', 'given'):
+        for unb in (False, True):
+            ck = FuncCheck(E, run, 'C01', CALC + 'calc_rdm_movie', f'single,bins={bins_case},unbalanced={unb}')
+
+            def mk(E, bins_case=bins_case, unb=unb):
+                del stores[:]
+                noise = E.sym_val('noise', tag='ndarray')
+                kw = common_kw(E, noise, E.sym_val('bins', tag='list') if bins_case == 'given' else None, unb)
+                return [E.sym_obj('dataset', 'TemporalDataset')], kw, []
+
+            def post(ck, E, args, kw, p, bins_case=bins_case, unb=unb):
+                dataset = args[0]
+                td = kw['time_descriptor']
+                res = p.value
+                a = peel(res, 'rsatoolbox.rdm.rdms.concat')
+                ck.ensure('post/frames-stacked-by-concat', z3.BoolVal(a is not None), structure=True)
+                if a is None:
+                    return
+                lst = a[0][0] if isinstance(a[0], tuple) and len(a[0]) == 1 else a[0]
+                ok = isinstance(lst, SeqV)
+                ck.ensure('post/frames-are-a-list', z3.BoolVal(ok), structure=True)
+                if not ok:
+                    return
+                src = dataset if bins_case == 'none' else E.call_method(dataset, 'bin_time', [td, kw['bins']], {})
+                parts = E.call_method(src, 'split_time', [td], {})
+                ck.ensure('post/one-frame-per-time-part', lst.zlen() == E.as_int(E.seq_len(parts)))
+                t = z3.Int(fresh_name('frame'))
+                in_t = z3.And(t >= 0, t < lst.zlen())
+                part = E.app('getitem', [parts, SV(t, 'int')])
+                flat = E.call_method(part, 'time_as_observations', [td], {})
+                fn = 'rsatoolbox.rdm.calc_unbalanced.calc_rdm_unbalanced' if unb else CALC + 'calc_rdm'
+                fv = E.find_function(fn)
+                bound = E.bind_args(fv.node, [flat], {k: kw[k] for k in opts}, module=fv.module)
+                want = E.app(fn, [bound[q] for q in bound], 'obj', cls='RDMs')
+                ck.ensure('post/frame-t-is-the-rdm-of-time-part-t-with-every-estimator-option-forwarded',
+                          z3.Implies(in_t, E.veq(E.seq_elem(lst, t), want)))
+                want_time = E.getitem(E.getattr(src, 'time_descriptors'), td)
+                hit = [v for (d, key, v) in stores if d is res.fields.get('rdm_descriptors') and E.toV(key).eq(E.toV(td))]
+                ck.ensure('post/frames-are-labelled-with-the-time-values', z3.BoolVal(len(hit) == 1) if len(hit) != 1 else
+                          E.veq(hit[0], want_time))
+                ck.ensure_eq('post/measure-name-is-the-method', res.fields.get('dissimilarity_measure'), kw['method'])
+            ck.execute(mk, post=post, allow_raise=lambda *a: None)
+            yield ck
+
+
 SINGLE = {
     'euclidean': ('calc_rdm_euclidean', ['dataset', 'descriptor', 'remove_mean']),
     'correlation': ('calc_rdm_correlation', ['dataset', 'descriptor']),
@@ -209,7 +309,7 @@ def tier_b(run, thorough):
 def run(run):
     E = engine(run)
     fails = []
-    for gen in (check_list, check_single):
+    for gen in (check_list, check_single, check_movie):
         for ck in gen(run, E):
             fails += ck.failed
     finish_engine(E, run)
